@@ -141,6 +141,34 @@ GETTERS = ["day_of_week", "day_of_year", "week_of_year", "days_in_month", "quart
            "is_long_year", "week_of_month"]
 
 
+def model_lemma(ctx, which):
+    """kernel obligation of the model datetime: single-day steps on the fields equal the ordinal round trip"""
+    y = ctx.year("y", 1, 9999)
+    m = ctx.int("m", 1, 12)
+    d = ctx.int("d", 1, 31)
+    ctx.assume(d <= cal.days_in_month(y, m))
+    o = cal.ymd2ord(y, m, d)
+    if which == "succ":
+        ctx.assume(o < cal.MAXORDINAL)
+        a = cal.succ_day(y, m, d)
+        ctx.claim("succ_day == ord2ymd(ord + 1)", cal.ymd2ord(*a) == o + 1)
+        ctx.claim("succ_day is a valid date", cal.valid_date(*a))
+    elif which == "pred":
+        ctx.assume(o > 1)
+        a = cal.pred_day(y, m, d)
+        ctx.claim("pred_day == ord2ymd(ord - 1)", cal.ymd2ord(*a) == o - 1)
+        ctx.claim("pred_day is a valid date", cal.valid_date(*a))
+    else:
+        a = cal.ord2ymd(o)
+        ctx.claim("ord2ymd(ymd2ord(y, m, d)) == (y, m, d)", AND(a[0] == y, a[1] == m, a[2] == d))
+        ctx.claim("ord2ymd yields a valid date", cal.valid_date(*a))
+    if ctx.mode == "real":
+        import datetime
+        r = datetime.date.fromordinal(o + (1 if which == "succ" else -1 if which == "pred" else 0))
+        ctx.claim("agrees with the C datetime module", AND(a[0] == r.year, a[1] == r.month, a[2] == r.day))
+    ctx.observe("a", list(a))
+
+
 def cases(tier):
     return [
         dict(name="year primitives", fn=year_prims, bounds="every year 1..9999"),
@@ -152,6 +180,10 @@ def cases(tier):
                     f"{b}, 4-year groups {lo}..{hi}) x offsets -86399..86399 s x microseconds")
         for b in range(4) for lo, hi in ((0, 4), (5, 9), (10, 14), (15, 19), (20, 24))
     ] + [
+    ] + [
+        dict(name=f"model lemma {w}", fn=model_lemma, params=dict(which=w),
+             bounds="every valid date in years 1..9999 (obligation of the model datetime, not of pendulum)")
+        for w in ("succ", "pred", "roundtrip")
     ] + [
         dict(name=f"{kind} {g}", fn=date_getters, params=dict(kind=kind, which=g),
              bounds="every valid date in years 1..9999" + (" as a UTC DateTime" if kind == "datetime" else ""))
